@@ -7,7 +7,7 @@ From FCA Require Export Corr.Common Model.TraceContext Spec.Trace.
 
 (* the traced context with the intents of the lattice's concepts *)
 Inductive tctx :=
-| TFormal (intents : list (list nat)) (t : table)
+| TFormal (b : backend) (intents : list (list nat)) (t : table)   (* b: back-end of the traced context *)
 | TMV (intents : list mv_intent) (n_objects : nat) (cols : list column).
 
 Record c17_case := {
@@ -25,7 +25,7 @@ Record c17_case := {
 Definition q_n (c : c17_case) : nat := length (q_exts c).
 Definition q_lt (c : c17_case) : nat -> nat -> bool := incl_lt (q_exts c).
 Definition q_h (c : c17_case) : nat :=
-  match q_ctx c with TFormal _ t => height t | TMV _ h _ => h end.
+  match q_ctx c with TFormal _ _ t => height t | TMV _ h _ => h end.
 
 (* the greatest concept of the list (the implementation's self.top is only a fallback) *)
 Definition q_true_top (c : c17_case) : nat :=
@@ -40,12 +40,12 @@ Definition q_mvctx (h : nat) (cols : list column) : mvctx := mkMV h cols [] [] [
 
 Definition q_ext (c : c17_case) : nat -> list nat :=
   match q_ctx c with
-  | TFormal intents t => formal_ext BBitarray intents t
+  | TFormal b intents t => formal_ext b intents t
   | TMV intents h cols => mv_ext (q_mvctx h cols) intents
   end.
 Definition q_sat (c : c17_case) : nat -> nat -> bool :=
   match q_ctx c with
-  | TFormal intents t => sat_formal intents t
+  | TFormal _ intents t => sat_formal intents t
   | TMV intents h cols => sat_mv intents cols
   end.
 
@@ -77,7 +77,7 @@ Definition c17_promised (c : c17_case) : bool :=
   strict_orderb lt n && is_topb lt n (q_true_top c) &&
   Nat.eqb (length (q_names c)) (q_h c) && nodupb (q_names c) &&
   match q_ctx c with
-  | TFormal intents t =>
+  | TFormal _ intents t =>
       Nat.eqb (length intents) n && antitone_intentsb lt intents &&
       forallb (in_rangeb (width t)) intents && wfb t
   | TMV intents h cols =>
